@@ -69,8 +69,9 @@ class Skip(Exception):
 
 
 class Ref:
-    def __init__(self, E, N, pre_expand, parserfns, tfn, pfn):
+    def __init__(self, E, N, pre_expand, parserfns, tfn, pfn, widen=False):
         self.E, self.N, self.pre, self.pf, self.tfn, self.pfn = E, N, pre_expand, parserfns, tfn, pfn
+        self.widen = widen      # not the English Wiktionary: the body of a flagged template is expanded in full
         self.tcalls = []
         self.pcalls = []
 
@@ -130,7 +131,9 @@ class Ref:
             self.tcalls.append((name, tuple(sorted(ht.items()))))
             t = self.tfn_result(name)
             if t is None:
-                inner_all = expand_all or False     # en/wiktionary: need_pre_expand does not widen the mode
+                # en/wiktionary: need_pre_expand does not widen the mode; elsewhere the body of a flagged template
+                # (and only that body) is expanded in full
+                inner_all = expand_all or (self.widen and name in FLAGGED)
                 t = self.ex(LIB[name], ht, inner_all)
             if self.pfn is not None and t:
                 self.pcalls.append((name, tuple(sorted(ht.items())), t))
@@ -180,30 +183,40 @@ def gen(depth):
 
 
 ctx = new_ctx({})
-for name, body in LIB.items():
-    ctx.add_page("Template:" + name, 10, src(body), need_pre_expand=name in FLAGGED)
-ctx.db_conn.commit()
+ctx_other = new_ctx({}, project="wikipedia")
+for c_ in (ctx, ctx_other):
+    for name, body in LIB.items():
+        c_.add_page("Template:" + name, 10, src(body), need_pre_expand=name in FLAGGED)
+    c_.db_conn.commit()
+CONTEXTS = [(ctx, False), (ctx_other, True)]
 
 pages = [("call", n, []) for n in NAMES] + [("call", n, [("t", "p")]) for n in NAMES] + \
         [("call", "c", [("call", "a", [("t", "1")]), ("call", "b", [])]),
          ("seq", [("call", "a", []), ("t", " "), ("call", "f", [("call", "b", [])])]),
          ("if", ("call", "a", []), ("call", "b", [("t", "k")]), ("t", "e")),
-         ("call", "nosuch", [("call", "a", [])])]
+         ("call", "nosuch", [("call", "a", [])]),
+         # a flagged template followed by unselected calls on the same level / inside a later argument
+         ("seq", [("call", "f", [("t", "p")]), ("t", " "), ("call", "a", [("t", "x")])]),
+         ("seq", [("call", "f", []), ("t", " "), ("call", "c", [("call", "b", [])]), ("call", "a", [])])]
 pages += [gen(3) for _ in range(25 if tier == "quick" else 300)]
 
 subsets = [None] + [frozenset(c) for k in range(len(NAMES) + 1) for c in itertools.combinations(NAMES, k)]
 if tier == "quick":
     subsets = [None, frozenset(), frozenset({"a"}), frozenset({"b"}), frozenset({"a", "c"}), frozenset(NAMES),
                frozenset({"f"}), frozenset({"b", "f"})]
-hook_modes = [(None, None), ({}, None), ({"a": "<M>"}, None), ({}, {}), ({}, {"b": "<P>"})]
+hook_modes = [(None, None), ({}, None), ({"a": "<M>"}, None), ({}, {}), ({}, {"b": "<P>"}), ({}, {"b": "", "a": ""}),
+              ({"b": ""}, {})]
 
 for page in pages:
     text = src(page)
     for E in subsets:
         for N in (subsets if tier != "quick" else [None, frozenset(), frozenset({"a"}), frozenset({"b", "f"})]):
             for pre, pf in itertools.product([True, False], repeat=2):
-                for tfn, pfn in (hook_modes if (E in (None, frozenset({"a"})) or tier != "quick") else hook_modes[:2]):
-                    ref = Ref(E, N, pre, pf, tfn, pfn)
+                for (tfn, pfn), (ctx, widen) in itertools.product(
+                        (hook_modes if (E in (None, frozenset({"a"})) or tier != "quick") else hook_modes[:2]), CONTEXTS):
+                    if widen and tier == "quick" and not (pre and (tfn, pfn) in hook_modes[:2]):
+                        continue
+                    ref = Ref(E, N, pre, pf, tfn, pfn, widen)
                     try:
                         want = ref.ex(page, None, not pre)
                     except Skip:
@@ -233,7 +246,8 @@ for page in pages:
                         kw["post_template_fn"] = post_template_fn
                     ctx.start_page("Tt")
                     evaluations += 1
-                    wit = {"page": text, "templates_to_expand": sorted(E) if E is not None else None,
+                    wit = {"page": text, "project": "wikipedia" if widen else "wiktionary",
+                           "templates_to_expand": sorted(E) if E is not None else None,
                            "templates_to_not_expand": sorted(N) if N is not None else None, "pre_expand": pre,
                            "expand_parserfns": pf, "template_fn": tfn, "post_template_fn": pfn}
                     try:
@@ -255,10 +269,11 @@ for page in pages:
                         if got != text:
                             fail("core:Wtp.expand#nothing-selected-returns-text-unchanged",
                                  f"got {got!r} for {text!r}", wit)
-                    distinct.add((text, E, N, pre, pf, str(tfn), str(pfn)))
+                    distinct.add((text, E, N, pre, pf, str(tfn), str(pfn), widen))
     if len(samples) < 3:
         samples.append({"page": text})
 
+ctx = CONTEXTS[0][0]
 # dedicated probe (outside the grammar's envelope): first argument of an enabled parser function in
 # pre-expand mode
 ctx.add_page("Template:e", 10, "")
@@ -318,5 +333,6 @@ emit({"skipped_outside_envelope": skipped, "evaluations": evaluations, "distinct
       "rule": "distinct (page, templates_to_expand, templates_to_not_expand, pre_expand, expand_parserfns, hook mode) tuples",
       "failures": list(failures.values()), "samples": samples,
       "bound": f"{len(pages)} pages (grammar depth <= 3) x {len(subsets)} selections x not-expand sets x 4 switch "
-               f"combinations x {len(hook_modes)} hook modes over a library of {len(LIB)} templates (one flagged "
+               f"combinations x {len(hook_modes)} hook modes (incl. hooks returning the empty string) x 2 wiki "
+               f"configurations (en/wiktionary, en/wikipedia) over a library of {len(LIB)} templates (one flagged "
                "need_pre_expand); expand_invoke=False throughout (no Lua offline)"})
